@@ -35,6 +35,9 @@ type c20Op struct {
 	// write to a destination that fails at byte FailAt-1 (FailAt > 0), in one of the three ways a writer can fail (C18)
 	FailAt   int `json:"fail_at,omitempty"`
 	FailMode int `json:"fail_mode,omitempty"`
+	// ViaOpen (read): the document sits in a file of the directory shared by all calls of the process and is read
+	// through the file-level opener
+	ViaOpen bool `json:"via_open,omitempty"`
 }
 
 type c20Case struct {
@@ -88,8 +91,25 @@ func (o c20Op) run() (res string) {
 					res = "PANIC"
 				}
 			}()
-			s, err := readFormat(o.Format, bytes.NewReader(o.Doc), o.Opts)
+			var s *astisub.Subtitles
+			var err error
+			if o.ViaOpen {
+				c20DirOnce.Do(func() { c20Dir, _ = os.MkdirTemp("", "c20files") })
+				p := filepath.Join(c20Dir, fmt.Sprintf("in-%d.%s", c20FileSeq.Add(1), o.Format))
+				_ = os.WriteFile(p, o.Doc, 0o644)
+				s, err = astisub.Open(astisub.Options{Filename: p, STL: astisub.STLOptions{IgnoreTimecodeStartOfProgramme: o.Opts.IgnoreTCP}, Teletext: astisub.TeletextOptions{Page: o.Opts.Page, PID: o.Opts.PID}})
+				_ = os.Remove(p)
+				if err != nil {
+					err = errors.New(strings.ReplaceAll(err.Error(), p, "<path>"))
+				}
+			} else {
+				s, err = readFormat(o.Format, bytes.NewReader(o.Doc), o.Opts)
+			}
 			res = canonResult(s, err)
+			if err != nil {
+				// which error a call returns is part of its result
+				res += ": " + err.Error()
+			}
 			if err == nil && s != nil {
 				// the caller owns the list it got: it edits every part of it, through the pointers it was given too
 				if s.Styles == nil {
@@ -440,6 +460,11 @@ func genC20Op(t *rapid.T) c20Op {
 		if f == "ts" && rapid.Bool().Draw(t, "pid") {
 			o.Opts.PID = ttxPID
 		}
+		if rapid.IntRange(0, 3).Draw(t, "hostiledoc") == 0 {
+			// a document with several things wrong: the call fails the same way every time
+			o.Doc, o.Opts = genHostileDoc(t, f)
+		}
+		o.ViaOpen = rapid.IntRange(0, 3).Draw(t, "viaopen") == 0
 		return o
 	case 1:
 		g := genGLRaw(t)
@@ -491,6 +516,19 @@ func TestC20(t *testing.T) {
 		var pool []c20Op
 		for i := 0; i < base; i++ {
 			pool = append(pool, genC20Op(rt))
+		}
+		if rapid.IntRange(0, 3).Draw(rt, "segments") == 0 {
+			// files of one directory read through the opener: WebVTT segments with and without a timestamp map, and
+			// documents in which several things are wrong at once (which error comes back is part of the result)
+			withMap := []byte("WEBVTT\nX-TIMESTAMP-MAP=LOCAL:00:00:00.000,MPEGTS:900000\n\n00:00:01.000 --> 00:00:02.000\nfirst segment\n")
+			without := []byte("WEBVTT\n\n00:00:03.000 --> 00:00:04.000\nsecond segment\n")
+			faulty := []byte(`<tt xmlns="http://www.w3.org/ns/ttml"><head><styling><style xml:id="s"/></styling></head><body><div><p begin="1s" end="2s" style="nope1">a</p><p begin="3s" end="4s" region="nope2">b</p><p begin="5s">c</p><p begin="6s" end="7s"><span style="nope3">d</span></p></div></body></tt>`)
+			faultyVTT := []byte("WEBVTT\n\n00:00:01.000 --> 00:00:02.000 region:nope1\na\n\n00:00:03.000 --> x\nb\n\nRegion: id=\n")
+			for _, via := range []bool{true, false} {
+				pool = append(pool, c20Op{Kind: "read", Format: "vtt", Doc: withMap, ViaOpen: via}, c20Op{Kind: "read", Format: "vtt", Doc: without, ViaOpen: via},
+					c20Op{Kind: "read", Format: "ttml", Doc: faulty, ViaOpen: via}, c20Op{Kind: "read", Format: "vtt", Doc: faultyVTT, ViaOpen: via})
+			}
+			base = len(pool)
 		}
 		if rapid.IntRange(0, 3).Draw(rt, "optiontrio") == 0 {
 			// the same list written with per-call options and without
